@@ -174,7 +174,7 @@ CHECKS = [
                       thorough="<=3 chromosomes, n<=4, K<=4, m<=3"),
           stubs=("E3 in-memory h5py model (integer writes clip, filters are no-ops)", "E4 pandas models on symbolic columns",
                  "E5 coo_matrix.toarray sums duplicates"),
-          outside=("HDF5 filter pipelines (no-ops in the model)", "dask input", "K beyond the bound"), timeout=1500),
+          outside=("HDF5 filter pipelines (no-ops in the model)", "dask input", "K beyond the bound"), timeout=3000, split_depth=7),
     Check("arrayloader", lambda tier: [dict(n=2), dict(n=3)] if tier == "quick" else [dict(n=2), dict(n=3), dict(n=4)],
           loader_sym, loader_real, labels=("has_zero", "small_chunks"),
           doc="ArrayLoader over a symbolic symmetric dense matrix with symbolic chunk size, upper mode",
